@@ -25,7 +25,7 @@ func init() {
 				Procs:    16,
 				Rule: "case = (constructor, operation history over Add/Push/Pop/PopLast/Clear); three generators: " +
 					"(a) scripted rotate-then-grow scenarios for every capacity 1..24 x every head position x {Add,Push} (seed-independent), and for every capacity 25..1400 (9000 thorough) x three head positions, continued to the next regrow, with constant-time observations on every step and the full comparison after every regrow, " +
-					"and at 262143..1.2 M elements (5 M thorough), one per block; (a2) for seven element types of one to four bytes (byte, int8, int16, int32, float32, [3]byte, a two-byte struct) every history of length 6 over {Add,Push,Pop,PopLast,Clear} from the zero value, New and NewSize(0,1,2,3,5), fully compared after every op; (b) exhaustive enumeration of all histories up to a length bound over {Add,Push,Pop,PopLast} for preallocated sizes 0..4, " +
+					"and at 262143..1.2 M elements (5 M thorough), one per block; (a2) for seven element types of one to four bytes (byte, int8, int16, int32, float32, [3]byte, a two-byte struct) every history of length 7 (8 thorough) over {Add,Push,Pop,PopLast,Clear} from the zero value, New and NewSize(0,1,2,3,5), fully compared after every op; (b) exhaustive enumeration of all histories up to a length bound over {Add,Push,Pop,PopLast} for preallocated sizes 0..4, " +
 					"(c) PRNG histories of 20..300 ops with phase-switching op mixes, (d) long-lived queues: one instance carries 300 000 (1.2 M thorough) operations with its length wandering between 0 and a few hundred. After EVERY op: Each with read-only calls (Slice, Peek, Front, Len, Each) made from inside its loop body - before the monitor reads anything else -, Len, IsEmpty, Front, Slice (and scribbling over the returned slice), Each (with early stop), Peek(n) for all n in [-Len-2, Len+1] and for offsets far out of range whose low 8..62 bits look like a valid offset. " +
 					"distinct = distinct (constructor, history) hashes; non-trivial = the history contained at least one wrap of the ring indices or a regrow while head > 0 (seen through the VerifState hook)",
 				Required:     []string{"rotate_then_grow_add", "rotate_then_grow_push", "backward_wrap_push", "forward_wrap_add", "pop_to_empty", "steps", "large_capacity_scenarios", "element_type_checks", "sparse_observation_histories", "concurrent_instance_histories", "long_lived_queue_runs", "very_large_queues", "shared_reader_rounds", "fill_then_drain_scenarios", "small_element_type_histories"},
@@ -857,12 +857,13 @@ func runC07(c *fw.Ctx) {
 	}
 }
 
-// c07small runs, for one element type, every history of length 6 over
+// c07small runs, for one element type, every history of length 7 (8 in the
+// thorough tier) over
 // {Add,Push,Pop,PopLast,Clear} from every kind of constructor and compares the
 // queue with a reference slice after every operation. mk must give distinct
-// non-zero values for 0..5. It returns the number of histories run.
+// non-zero values for 0..7. It returns the number of histories run.
 func c07small[T comparable](c *fw.Ctx, name string, mk func(int) T) int {
-	const L = 6
+	L := c.Pick(7, 8)
 	total := 1
 	for i := 0; i < L; i++ {
 		total *= 5
